@@ -640,3 +640,16 @@ Proof.
   - apply find_in_types_some in H. destruct H as [t [_ [Hn Hf]]]. rewrite find_in_type_nil in Hf. inversion Hf; subst. reflexivity.
   - apply find_in_types_some in H. destruct H as [t [_ [_ Hf]]]. eapply find_in_type_last_name. exact Hf.
 Qed.
+
+Lemma duplicate_errors_iff_lem : forall mods, no_duplicate_errors mods <-> Forall wf_module mods.
+Proof. intro mods. split; [apply no_duplicate_errors_wf | apply wf_no_duplicate_errors]. Qed.
+
+Lemma canonical_name_roundtrip_full_lem : forall mods,
+  NoDup (map m_file mods) -> no_duplicate_errors mods ->
+  (forall cn d, In (cn, d) (defs_of mods) -> find_object mods cn = Some d)
+  /\ NoDup (map fst (defs_of mods)).
+Proof.
+  intros mods Hf He. apply no_duplicate_errors_wf in He. split.
+  - apply canonical_name_roundtrip_lem; assumption.
+  - apply canonical_names_unique_lem; assumption.
+Qed.
